@@ -310,7 +310,7 @@ def main(tier: str, seed: int) -> int:
     keep = slice_keep("quick")
     imm_fams = ["C12", "C13", "C15"] if quick else ["C08", "C09", "C10", "C11", "C12", "C13", "C14", "C15", "C16"]
     n_fixed = len(imm_jobs)
-    imm_jobs += list(compose.remap(compose.family_jobs(imm_fams, tier),
+    imm_jobs += list(compose.remap(compose.family_jobs(imm_fams, "quick"),
                                    "C17", mk, checks=("immut",),
                                    keep=lambda j: keep(j) or j["family"].split("/")[0].split("~")[0] in ("C12", "C13")))
     fam_part = imm_jobs[n_fixed:]
